@@ -32,7 +32,14 @@ type chain struct {
 // predist: ordered list of (abstract account name, quota); the genesis is a "nofee" chain (gas price 0,
 // award 0, transactions without UTXO inputs are admitted) - the configuration the governance token is
 // documented for (genesis.go: "nofee ... 治理代币，会从此配置中进行初始代币发行").
-func newChain(name string, names []string, quota map[string]string) (*chain, error) {
+func newChain(name string, keys []*fx.Key, quotas []string) (*chain, error) {
+	// fx.Genesis resolves predistribution names through fx.GetKey, so the keys are passed by their names
+	quota := map[string]string{}
+	names := []string{}
+	for i, k := range keys {
+		quota[k.Name] = quotas[i]
+		names = append(names, k.Name)
+	}
 	g := fx.Genesis(fx.GenesisOpts{Predist: quota, PredistList: names, NoFee: true, Award: "0", Miner: "m"})
 	// the contract manager of the fixture reads <node root>/conf/contract.yaml: kernel contracts only
 	conf := filepath.Join(fx.DataPrefix(name), "conf")
